@@ -146,6 +146,14 @@ func implInterleaved(p *vproto.Parser) string {
 	for i := range pts {
 		pts[i] = [2]float64{p.F(), p.F()}
 	}
+	// (0) B1 alone first (wave 5): anything the library remembers per PARAMETER SET (a constructor-level memo keyed on the
+	// standard parallels, say) is then primed with the OTHER ellipsoid's values before B2 is ever built in this process;
+	// B2's answers below are judged by Spec and model, so a memo that serves them B1's constants is a failing input
+	if ab0, ba0, err := pair(a, b1); err == nil {
+		for _, pt := range pts {
+			threeLegs(ab0, ba0, pt[0], pt[1])
+		}
+	}
 	// (a) B2 alone
 	ab, ba, err := pair(a, b2)
 	if err != nil {
